@@ -1,4 +1,5 @@
 import OcVerif.Model.Uring
+import OcVerif.Model.UringSq
 /-!
 # C27 — io_uring completions reach the call that submitted them
 
@@ -269,5 +270,76 @@ theorem C27_old_order_drops :
 -- non-vacuity: two callers, completions in the opposite order, one of them an error
 example : (run {} [.call 1, .call 2, .call 1, .call 2, .complete 2 (-9), .complete 1 5, .call 1, .call 2]).map
     (fun σ => (pcOf σ 1, pcOf σ 2, σ.dropped)) = some (.returned 5 0, .returned (-1) 9, []) := by decide
+
+/-! ## the producer side of the submission queue -/
+section Sq
+open Oc.UringSq
+
+theorem pushLocked_eq (r : Ring) (p e : Nat) (hv : r.views = []) :
+    pushLocked r (p, e) = { tail := r.tail + 1, slots := (r.tail, e) :: r.slots.filter (·.1 != r.tail), views := [] } := by
+  simp [pushLocked, UringSq.run, UringSq.step, viewOf, hv]
+
+theorem find_filter_ne (l : List (Nat × Nat)) (t i : Nat) (h : i ≠ t) :
+    (l.filter (·.1 != t)).find? (·.1 == i) = l.find? (·.1 == i) := by
+  induction l with
+  | nil => rfl
+  | cons x xs ih =>
+    by_cases hx : x.1 = t
+    · have h1 : (x.1 != t) = false := by simp [hx]
+      have h2 : (x.1 == i) = false := by simp [hx]; exact fun e => h e.symm
+      simp [List.filter_cons, h1, List.find?_cons, h2, ih]
+    · have h1 : (x.1 != t) = true := by simp [hx]
+      simp only [List.filter_cons, h1, if_true, List.find?_cons]
+      split
+      · rfl
+      · exact ih
+
+theorem submitted_pushLocked (r : Ring) (p e : Nat) (hv : r.views = []) :
+    (pushLocked r (p, e)).views = [] ∧ submitted (pushLocked r (p, e)) = submitted r ++ [some e] := by
+  rw [pushLocked_eq r p e hv]
+  refine ⟨rfl, ?_⟩
+  unfold submitted
+  simp only [List.range_succ, List.map_append, List.map_cons, List.map_nil]
+  congr 1
+  · apply List.map_congr_left
+    intro i hi
+    have hlt : i < r.tail := List.mem_range.mp hi
+    have hne : i ≠ r.tail := by omega
+    have hb : (r.tail == i) = false := by simp; omega
+    simp only [slotAt, List.find?_cons, hb]
+    rw [find_filter_ne r.slots r.tail i hne]
+  · simp [slotAt]
+
+/-- Whatever threads push whatever entries: when every `push_sq` runs under the lock, the kernel
+is handed exactly the pushed entries, each once, in the order of the pushes — none is overwritten. -/
+theorem C27_sq_locked_no_loss (pes : List (Nat × Nat)) :
+    submitted (pes.foldl pushLocked {}) = pes.map (fun pe => some pe.2) ∧ (pes.foldl pushLocked {}).tail = pes.length := by
+  have gen : ∀ (r : Ring), r.views = [] →
+      (pes.foldl pushLocked r).views = [] ∧
+      submitted (pes.foldl pushLocked r) = submitted r ++ pes.map (fun pe => some pe.2) ∧
+      (pes.foldl pushLocked r).tail = r.tail + pes.length := by
+    induction pes with
+    | nil => intro r hv; exact ⟨hv, by simp, by simp⟩
+    | cons pe rest ih =>
+      intro r hv
+      obtain ⟨p, e⟩ := pe
+      have h1 := submitted_pushLocked r p e hv
+      have h2 := ih (pushLocked r (p, e)) h1.1
+      refine ⟨h2.1, ?_, ?_⟩
+      · simp only [List.foldl_cons, List.map_cons]
+        rw [h2.2.1, h1.2]; simp
+      · simp only [List.foldl_cons, List.length_cons]
+        rw [h2.2.2, pushLocked_eq r p e hv]; simp only; omega
+  have := gen {} rfl
+  exact ⟨by simpa [submitted] using this.2.1, by simpa using this.2.2⟩
+
+/-- Without the lock (the code before the repair): two threads open their views on the same tail,
+both write slot 0, both publish tail 1 — the kernel sees one entry, the other call waits for ever. -/
+theorem C27_sq_unlocked_loses :
+    submitted (UringSq.run {} [.create 1, .create 2, .push 1 11, .push 2 22, .sync 1, .sync 2]) = [some 22] := by decide
+
+example : submitted ([(1, 11), (2, 22), (1, 33)].foldl pushLocked {}) = [some 11, some 22, some 33] := by decide
+
+end Sq
 
 end Oc.Props.C27
